@@ -9,7 +9,8 @@
 (* unfinished accepting runs are flushed at Stop.  reset line: pat (AST),    *)
 (* defs = <<[v, k, c]>>, skip ("past" | "next" | "first" | "last" with skback), part (partition column). *)
 (*   pattern AST: [t |-> "var", v] | "seq" ps | "alt" ps | "q" p lo hi (hi=-1: unbounded) *)
-(*   DEFINE kinds: "gt" c | "lt" c | "up" (v > PREV(v)) | "down" | "true"    *)
+(*   (PERMUTE(A, B, ..) reaches the monitor as the alternation of all its orders) *)
+(*   DEFINE kinds: "gt" c | "lt" c | "eq" c | "up" (v > PREV(v)) | "down" | "true"    *)
 (*                 | "up2" (v > PREV(v, 2)) | "down2"                         *)
 (***************************************************************************)
 EXTENDS SV, Json, IOUtils, FiniteSets
@@ -37,6 +38,7 @@ Holds(v, ix, i, st) ==
     [] d.k = "cntle" -> (i - st + 1) * Scale <= d.c
     [] d.k = "gt" -> x.k = "num" /\ x.v > d.c
     [] d.k = "lt" -> x.k = "num" /\ x.v < d.c
+    [] d.k = "eq" -> x.k = "num" /\ x.v = d.c
     [] d.k = "up" -> i > 1 /\ x.k = "num" /\ V(ix, i - 1).k = "num" /\ x.v > V(ix, i - 1).v
     [] d.k = "down" -> i > 1 /\ x.k = "num" /\ V(ix, i - 1).k = "num" /\ x.v < V(ix, i - 1).v
     \* PREV(v, 2): two rows back WITHIN the match so far (navigation never leaves the match: before its start there is nothing, the comparison is not true)
